@@ -59,6 +59,44 @@ Definition ans_loop (d : ldemand) (sc scfull : script) (n : node) (v : val) (pat
     "e=" ++ pr_err e ++ ";" ++ pr_trace (sorted_of d) (abstract (kabs_of d) tr) (abstract (kabs_of d) full)
   end.
 
+(* reflection cannot tell []uint8 from []byte and the harness prints both as bytes; the models keep
+   a []uint8 (an indexable slice for the emitters) as a VSlice: rewrite those, type-directed *)
+Fixpoint as_bytes (n : node) (x : val) {struct n} : val :=
+  match n with
+  | Node ty tn tu nm pk pki p chld mk mv sl hb hc =>
+    let inner (y : val) : val :=
+      match ty with
+      | typeStruct =>
+        match y with
+        | VStruct fs =>
+          VStruct ((fix go (cs : list node) (fs : list val) : list val :=
+                      match cs, fs with
+                      | c :: cr, f :: fr => as_bytes c f :: go cr fr
+                      | _, _ => fs
+                      end) chld fs)
+        | _ => y
+        end
+      | typeSlice =>
+        match y, sl with
+        | VSlice isnil es e, Some en =>
+          if is_u8 en then VBytes isnil (map byte_of_val es) e
+          else VSlice isnil (map (as_bytes en) es) e
+        | _, _ => y
+        end
+      | typeMap =>
+        match y, mk, mv with
+        | VMap isnil kvs, Some kn, Some vn => VMap isnil (map (fun kv => (as_bytes kn (fst kv), as_bytes vn (snd kv))) kvs)
+        | _, _, _ => y
+        end
+      | typeBasic => y
+      end in
+    if p then match x with VPtr (Some y) => VPtr (Some (inner y)) | _ => x end else inner x
+  end.
+
+Section Dumps.
+Variable root : node.
+Definition dumpb (v : val) : string := GenC08.dumpb (as_bytes root v).
+
 Definition ans_val (o : out (option val)) : string :=
   match o with
   | Ret (Some c) None | Fall (Some c) => "e=nil;d=" ++ dumpb c
@@ -82,11 +120,13 @@ Definition ans_dst (dform : string) (d : val) (o : out (option val)) : string :=
   | Panic k => "PANIC:" ++ pr_pkind k
   end.
 
-Definition ans_copy (n : node) (v : val) (form : string) : string := ans_val (copy_method n (arg_of_form form v)).
+End Dumps.
+
+Definition ans_copy (n : node) (v : val) (form : string) : string := ans_val n (copy_method n (arg_of_form form v)).
 Definition ans_copyto (n : node) (dform : string) (d v : val) (form : string) : string :=
-  ans_dst dform d (copyto_method n (arg_of_form form v) (arg_of_form dform d)).
+  ans_dst n dform d (copyto_method n (arg_of_form form v) (arg_of_form dform d)).
 Definition ans_reset (n : node) (v : val) (form : string) : string :=
-  ans_dst form v (reset_method n (arg_of_form form v)).
+  ans_dst n form v (reset_method n (arg_of_form form v)).
 (* deq;<rf>;-;<mode>;<b>  with value a: the varied form carries b, the other operand a in form rf *)
 Definition ans_deq (n : node) (same : bool) (rf : string) (a b : val) (form : string) : string :=
   let la := arg_of_form form b in
@@ -216,7 +256,7 @@ Definition value_lines (u : string) (n : node) (vs : list val) (vi : nat) (v : v
   let zero := zero_val n in
   let reset_i := Inner "reset" "freset" (ans_reset n v) OReset in
   let cto_i (df : string) := Inner "copyto" ("fcopyto;" ++ df ++ ";" ++ pr_val true zero) (ans_copyto n df zero v) OCopyToDst in
-  let must (d : val) := "e=" ++ pr_err (Some by_value_error) ++ ";d=" ++ dumpb d in
+  let must (d : val) := "e=" ++ pr_err (Some by_value_error) ++ ";d=" ++ dumpb n d in
   [ forms_line u id (tags_of is) value is;
     pure_line u id (tags_of is) "v" value "*" is;
     pure_line u id (tags_of is) "pp" value "*" is;
@@ -250,14 +290,18 @@ Definition hostile_lines (u : string) (n : node) (v : val) : list string :=
   (* foreign: one line per op, the demand is a refusal *)
   (map (fun ki : string * inner =>
          let '(k, i) := ki in
-         let dst := match i_op i with OReset => untouched "foreign" v | _ => dumpb zero end in
+         let dst := match i_op i with OReset => untouched n "foreign" v | _ => dumpb n zero end in
          pure_line u (u ++ ".foreign." ++ k ++ "." ++ i_text i) ("foreign," ++ i_tag i) "foreign" value (refusal_spec i dst) [i])
       (pis ++ vis "foreign")%list ++
   map (fun kif : string * inner * string =>
          let '(k, i, f) := kif in
          pure_line u (u ++ ".foreignarg." ++ k ++ "." ++ f ++ "." ++ i_text i) ("foreign,other," ++ i_tag i) f value
-                   (refusal_spec i (untouched "foreign" zero)) [i])
+                   (refusal_spec i (untouched n "foreign" zero)) [i])
       (others "foreign") ++
+  (* a foreign source with a by-value destination: both clauses refuse, either error is accepted *)
+  [ pure_line u (u ++ ".foreign.bvdst") "foreign,byvalue,copyto" "foreign" value
+      ("e=" ++ pr_err (Some by_value_error) ++ ";d=" ++ dumpb n zero ++ ";same=1 || e=unsupported;d=" ++ dumpb n zero ++ ";same=1")
+      [Inner "copyto" ("fcopyto;v;" ++ pr_val true zero) (ans_copyto n "v" zero v) OCopyToDst] ] ++
   (* nil forms: grouped per path, prediction only *)
   flat_map (fun f : string =>
     map (fun pt : tagged =>
